@@ -878,9 +878,12 @@ var exprSuffixRe = regexp.MustCompile(` \(expr: .*\)$`)
 
 // normMsg is a panic or error message without what varies with the input: numbers, the expression quoted at its end.
 func normMsg(m string) string {
-	m = isNodeRe.ReplaceAllString(m, "is *ast.#, not") // the node met varies, the node expected names the place
+	m = isNodeRe.ReplaceAllString(m, "is *ast.#, not")     // the node met varies, the node expected names the place
+	m = notFoundRe.ReplaceAllString(m, "bug: # not found") // the name of the variable varies
 	return digitsRe.ReplaceAllString(exprSuffixRe.ReplaceAllString(m, ""), "#")
 }
+
+var notFoundRe = regexp.MustCompile(`^bug: [A-Za-z_][A-Za-z0-9_]* not found`)
 
 var isNodeRe = regexp.MustCompile(`is \*ast\.[A-Za-z]+, not`)
 
